@@ -13,7 +13,7 @@ CONSTANTS
   PendingIsWouldBlock = TRUE
   MidResumes = TRUE
   FinalFlush = TRUE
-  FixNativeClose = FALSE
+  CloseFlushes = TRUE
   FixRustlsHsFlush = FALSE
 SPECIFICATION GSpec
 INVARIANTS Emit
